@@ -48,7 +48,11 @@ struct Sched {
         ts.clear(); ts.push_back(T{}); cur = 0; me = 0; active = true;
         script = std::move(sc); scriptPos = 0; randomMode = random; sticky = random && seed >= (1ull << 62); rng = seed; diverged = false; logPoints = logPts; points = 0;
         objIds.clear();
+        failSpawns = 0;
     }
+    // fault injection: the next `failSpawns` thread creations fail the way std::thread does when the system refuses a thread
+    // (std::system_error, resource_unavailable_try_again); no thread is created and nothing is registered
+    int failSpawns = 0;
     // returns true when every managed thread except the caller (thread 0) has finished
     void end() { std::unique_lock<std::mutex> lk(G); active = false; }
 
@@ -226,6 +230,14 @@ struct Thread {
     template<class F, class... A, class = std::enable_if_t<!std::is_same_v<std::decay_t<F>, Thread>>>
     explicit Thread(F &&f, A &&... a) {
         auto &s = Sched::I();
+        {
+            std::unique_lock<std::mutex> lk(s.G);
+            if (s.failSpawns > 0) {
+                --s.failSpawns;
+                s.log("spawnfail " + std::to_string(Sched::me));
+                throw std::system_error(std::make_error_code(std::errc::resource_unavailable_try_again));
+            }
+        }
         { std::unique_lock<std::mutex> lk(s.G); vid = s.spawn_register(); s.log("spawn " + std::to_string(Sched::me) + " " + std::to_string(vid)); }
         int myid = vid;
         t = std::thread([myid](std::decay_t<F> fn, std::decay_t<A>... args) {
